@@ -7,6 +7,7 @@ import (
 	"time"
 
 	"github.com/0xReLogic/Helios/internal/circuitbreaker"
+	"github.com/0xReLogic/Helios/internal/config"
 	vh "github.com/0xReLogic/Helios/internal/verifh"
 )
 
@@ -431,7 +432,10 @@ func init() {
 			var cs []c07Sys
 			// h: a backend that never answers, with the server's write timeout (2 s) shorter than backend_read (5 s): the
 			// exchange is given up at the write timeout and is a failure like any other
-			fixed := []string{"fffToo", "rrTo", "xxTo", "ffToTo", "ufTfTo", "fafafIfo", "oofoIfof", "rfxToTo", "fTfTfTo", "ffTooffo", "nfnfTnn", "hho", "hhhToo", "fhTo"}
+			fixed := []string{"fffToo", "rrTo", "xxTo", "ffToTo", "ufTfTo", "fafafIfo", "oofoIfof", "rfxToTo", "fTfTfTo", "ffTooffo", "nfnfTnn", "hho", "hhhToo", "fhTo",
+				// l: the rate limiter is on as well and a client whose bucket is empty asks again: answered 429 by the limiter,
+				// no business of the breaker's (neither a trial nor a failure)
+				"ffTlo", "ffTllfTo", "lfflTlo", "ufTlfTlo"}
 			cfgs := [][3]int{{1, 1, 1}, {2, 1, 1}, {2, 2, 2}, {3, 1, 2}, {2, 2, 3}}
 			for si, st := range allStrategies {
 				for ci, cf := range cfgs {
@@ -472,6 +476,10 @@ func c07SysRun(e *vh.Env, c c07Sys, o *vh.Out, prop string) {
 	if strings.Contains(c.Seq, "h") {
 		cfg.Server.Timeouts.Write = 2
 	}
+	limited := strings.Contains(c.Seq, "l")
+	if limited {
+		cfg.RateLimit = config.RateLimitConfig{Enabled: true, MaxTokens: 1, RefillRate: 3600}
+	}
 	if err := cfg.Validate(); err != nil {
 		o.Inconcl("config rejected: %v", err)
 		return
@@ -482,6 +490,15 @@ func c07SysRun(e *vh.Env, c c07Sys, o *vh.Out, prop string) {
 		return
 	}
 	defer sys.Close()
+	if limited {
+		// the one token of the client that will be refused later is spent now (a success on a closed breaker)
+		ok := vh.Script{Status: 200, Steps: []vh.Step{{Op: "write", N: 4}}}
+		if rs := vh.Do(sys.Addr, vh.RawReq{Method: "GET", Target: "/drain", Headers: [][2]string{{vh.ScriptHeader, ok.Encode()}, {"X-Forwarded-For", "10.7.250.250"}}, TimeoutMs: 60000, Instant: true}); rs.Status != 200 {
+			o.Inconcl("draining request got %d", rs.Status)
+			return
+		}
+		vh.Settle()
+	}
 	m := vh.NewBreakerModel(c.FT, c.ST, c.MR, 10*time.Second, 30*time.Second)
 	adv := map[byte]time.Duration{'a': 3 * time.Second, 'I': 11 * time.Second, 'T': 31 * time.Second}
 	origin := time.Now()
@@ -509,10 +526,34 @@ func c07SysRun(e *vh.Env, c c07Sys, o *vh.Out, prop string) {
 			sc = vh.Script{RawReset: true} // connection dropped before any response: the backend is unreachable for this request
 		case 'h':
 			sc = vh.Script{HangFirst: true}
+		case 'l':
+			sc = vh.Script{Status: 200, Steps: []vh.Step{{Op: "write", N: 4}}}
 		}
 		before := bes[0].Count() + bes[1].Count()
 		t := time.Since(origin)
-		rs := vh.Do(sys.Addr, vh.RawReq{Method: "GET", Target: "/r", Headers: [][2]string{{vh.ScriptHeader, sc.Encode()}}, TimeoutMs: 60000, Instant: ev != 'h'})
+		hdrs := [][2]string{{vh.ScriptHeader, sc.Encode()}}
+		if limited {
+			// every request is a client of its own, except the drained one
+			cl := fmt.Sprintf("10.7.%d.%d", i/200, i%200+1)
+			if ev == 'l' {
+				cl = "10.7.250.250"
+			}
+			hdrs = append(hdrs, [2]string{"X-Forwarded-For", cl})
+		}
+		rs := vh.Do(sys.Addr, vh.RawReq{Method: "GET", Target: "/r", Headers: hdrs, TimeoutMs: 60000, Instant: ev != 'h'})
+		if ev == 'l' {
+			vh.Settle()
+			if rs.Status != 429 || !strings.Contains(string(rs.Body), "Rate limit exceeded") {
+				o.Viol(prop+"|sys|unexpected-response", fmt.Sprintf("%s seq=%s step %d (l): the drained client got %d %q", c.Strategy, c.Seq, i, rs.Status, trunc(string(rs.Body), 60)), nil)
+				return
+			}
+			if n := bes[0].Count() + bes[1].Count() - before; n != 0 {
+				o.Viol(prop+"|sys|backend-contacted-on-reject", fmt.Sprintf("%s seq=%s step %d: the limiter answered 429 but %d request(s) reached a backend", c.Strategy, c.Seq, i, n), nil)
+				return
+			}
+			o.Obs("limiter_rejections_beside_the_breaker", 1)
+			continue // not an event of the breaker at all
+		}
 		vh.Settle()
 		arrived := bes[0].Count() + bes[1].Count() - before
 		body := string(rs.Body)
